@@ -21,7 +21,11 @@ type WireOp struct {
 	Loop  bool
 	Cond  bool
 	Instr ssa.Instruction
+	sub   int // order among the operations of one inlined helper call
 }
+
+// nesting of helper inlining in WireOps (runs are sequential)
+var wireDepth int
 
 func (w WireOp) String() string {
 	s := w.Kind
@@ -193,6 +197,42 @@ func WireOps(fn *ssa.Function, recv, buf *ssa.Parameter, writer bool) ([]WireOp,
 				op.Kind = "Self." + id[strings.LastIndex(id, ".")+1:]
 			}
 		default:
+			// a helper of the same package that is handed the receiver and the buffer
+			// (e.putHeader(b)): its operations happen here, in its order
+			h := cc.StaticCallee()
+			if h == nil || len(h.Blocks) == 0 || h.Pkg != fn.Pkg || wireDepth > 2 {
+				continue
+			}
+			var hBuf, hRecv *ssa.Parameter
+			for i, a := range args {
+				if i >= len(h.Params) {
+					break
+				}
+				switch {
+				case isBufArg(a):
+					hBuf = h.Params[i]
+				case recv != nil && (a == ssa.Value(recv) || Describe(a) == "p:"+ParamName(recv)):
+					hRecv = h.Params[i]
+				}
+			}
+			if hBuf == nil || hRecv == nil {
+				// only helpers working on this very receiver are part of its codec; a
+				// field's own encode/decode is a nested codec with its own pair
+				continue
+			}
+			wireDepth++
+			inner, err := WireOps(h, hRecv, hBuf, writer)
+			wireDepth--
+			if err != nil {
+				return nil, fmt.Errorf("helper %s: %v", h.Name(), err)
+			}
+			loop, cond := InCycle(call), !onSpine(call)
+			for k, in := range inner {
+				in.Instr, in.sub = call, k+1
+				in.Loop = in.Loop || loop
+				in.Cond = in.Cond || (!in.Loop && cond)
+				ops = append(ops, in)
+			}
 			continue
 		}
 		op.Loop = InCycle(call)
@@ -228,6 +268,9 @@ func WireOps(fn *ssa.Function, recv, buf *ssa.Parameter, writer bool) ([]WireOp,
 	// order by dominance (stable topological order over the dominator relation)
 	sort.SliceStable(ops, func(i, j int) bool {
 		a, b := ops[i].Instr, ops[j].Instr
+		if a == b {
+			return ops[i].sub < ops[j].sub
+		}
 		if Dominates(a, b) {
 			return true
 		}
